@@ -174,10 +174,11 @@ func Run(r *core.Run) {
 			cmd := exec.CommandContext(ctx, bin, "racepass")
 			cmd.Env = append(os.Environ(), "GOMAXPROCS="+procs, "GORACE=halt_on_error=0 exitcode=66")
 			outB, err := cmd.CombinedOutput()
+			timedOut := ctx.Err() == context.DeadlineExceeded
 			cancel()
 			out := string(outB)
 			r.Eval(1)
-			if ctx.Err() != nil {
+			if timedOut {
 				// no wall-clock oracle: a pass that does not finish is recorded, not judged
 				r.Extra["free_running_race_pass_"+procs] = "did not finish within its deadline (not a verdict)"
 				continue
@@ -190,6 +191,8 @@ func Run(r *core.Run) {
 				r.Report("racepass/"+procs, core.Fail{Key: "go-race-detector", What: "the Go race detector reported a data race in the free-running pass", Detail: map[string]any{"gomaxprocs": procs, "report": first}})
 			} else if err != nil {
 				r.Report("racepass/"+procs, core.Fail{Key: "racepass-failed", What: "free-running pass failed: " + err.Error() + ": " + tail(out), Detail: map[string]any{"gomaxprocs": procs}})
+			} else {
+				r.Extra["free_running_race_pass_"+procs] = "finished, no report"
 			}
 		}
 		r.Extra["free_running_race_pass"] = "4 GOMAXPROCS settings x fixed iteration counts, supplementary"
